@@ -211,6 +211,9 @@ def run_case(ctx, mon, cfg_id, terms, prods, inputs_spec=None, rng=None, any_spe
             ctx.count("ctor_grammar_error(judged by C03)")
     if not parsers:
         return
+    if cfg.kwargs.get('span_matchers'):
+        llmon.build_decoy(cfg)
+        ctx.count("parsers_with_other_multi_line_tokens_built_in_between")
     ctx.count("grammars")
     if any(p._suffix_symbols for p in parsers.values()):
         ctx.count("grammars_with_suffix_symbols")
